@@ -6,6 +6,25 @@ VERIF = Path(__file__).resolve().parent.parent
 ALL = [f"C{i:02d}" for i in range(1, 18)]
 
 CHECKS = {
+    "C01": dict(
+        text="Theorem C01_verdict (Coq, every graph, every strict rule, no bound): the model of Rule.assert_applies returns Pass exactly when the "
+             "documented semantics (Model/SpecRule.v) hold and Fail otherwise, never an error (C01_total); the three public graph queries are "
+             "proved equal to the documented comprehensions on pairwise unrelated filters. Tie to /repo: every case evaluated by the real Rule API "
+             "and the extracted model (verdict compared), exhaustive over import relations of three 5-node trees in thorough, plus random/scanned trees; "
+             "strict rules are additionally checked against an independent executable reading of the documented semantics.",
+        note="Theorems cover the 12 verb x direction x except shapes with name / sub-modules-of filters; the two 'anything' aliases are tied to "
+             "'should_not ... except the subjects' by C12_alias on the model and by correspondence. Graph searches are modelled at the comprehension level "
+             "(worklist loops not modelled; compared through verdicts and report lines). Trusted: Coq kernel, extraction, driver, harness.",
+        technique="Coq proof (query characterisation lemmas + bucket analysis) + model/implementation correspondence",
+        design="5/C01"),
+    "C03": dict(
+        text="Theorems C03_report_sound / C03_report_complete / C03_nothing_unrelated (Coq, all graphs, all strict rules): the model's report lines are exactly "
+             "the rule's violating set (forbidden imports between subject and object, not-allowed imports between subject and something else, one "
+             "'does not import' line per subject with exactly its missing objects). Tie to /repo: str(AssertionError) parsed back to abstract lines and "
+             "compared as a set with the model's and with the documented violating set, same case space as C01.",
+        note="English rendering (verb forms, quoting) is parsed by the harness, not verified. Searches at comprehension level (see C01).",
+        technique="Coq proof + model/implementation correspondence on parsed report lines",
+        design="5/C03"),
     "C08": dict(
         text="Theorems (Coq, all patterns and all newline-free path strings, no bound): the glob->regex converter always emits a regex of the "
              "modelled fragment that parses back to (leading star, literal text, trailing star), and convert+re.match equals the documented "
